@@ -845,7 +845,8 @@ fn b_to_text(src: &mut Src, env: &Env) -> Case {
 }
 
 fn b_fft_stream(src: &mut Src, env: &Env) -> Case {
-    let size = *src.pick(&[1usize, 2, 4, 8, 16, 3, 5]);
+    // (83, 107, 166, 214: sizes whose FFT plan wants more scratch than a frame)
+    let size = *src.pick(&[1usize, 2, 4, 8, 16, 3, 5, 83, 107, 166, 214]);
     let n = gen_len_small(src, env.cap::<Complex>());
     let data = gen_complex_tame(src, n);
     let stray = stray_tags(src, n, 1024);
